@@ -777,6 +777,9 @@ def r14(R):
         return st
 
     def at(node, st):
+        # ... and "a pack may have removed it" is concluded for the object
+        # at hand, from the oldest revision the changes have of it (a pack
+        # removes nothing of an object first changed after it)
         for op in F.ops(node):
             if op.kind == 'call' and path_is(
                     op.path, ('self', 'base', 'loadBefore')) and \
@@ -797,3 +800,35 @@ def r14(R):
         R.violation(v.node, v.message, g, v.path,
                     key='base asked although a pack may have removed the '
                         'revision')
+
+    # second pass: between the test of the pack mark and a `return None`
+    # the changes are asked again (the walk to the object's oldest revision)
+    def edge2(node, st, lab, tgt):
+        st = edge(node, st, lab, tgt) if st in (
+            'start', 'known-nothing-before') else st
+        if st == 'pack-considered' and lab not in ('e', 'eb'):
+            for op in F.ops(node):
+                if op.kind == 'call' and path_is(
+                        op.path, ('self', 'changes', 'loadBefore')):
+                    return 'oldest-looked-up'
+        return st
+
+    def at2(node, st):
+        if node.kind == 'return' and st == 'pack-considered' and (
+                node.ast.value is None or (isinstance(
+                    node.ast.value, ast.Constant) and
+                    node.ast.value.value is None)):
+            return Violation(
+                'DemoStorage.loadBefore answers "nothing" for every bound '
+                'not later than the last pack, whatever the object: an '
+                'object whose FIRST change came after the pack lost nothing '
+                'to it, and its base revision is the right answer for '
+                'historical reads before the pack')
+        return st
+
+    vs, stats = explore(g, 'start', at=at2, edge=edge2)
+    R.count(stats)
+    for v in vs[:1]:
+        R.violation(v.node, v.message, g, v.path,
+                    key='nothing answered without looking at the object\'s '
+                        'oldest revision')
